@@ -146,7 +146,7 @@ def make_case(ctx, fmt, variant, rng):
                                     "cp500": (name + "  ").encode("cp500")}[variant.get("aname", "ascii")]
         archive = arch_spec.build(av2)
         hdr["archive"] = av2
-    data = archive + bytes(block) + b"".join(rec.build(v) for v in recs_vals) + bytes(rng.randrange(256) for _ in range(variant["tail"]))
+    data = archive + bytes(block) + b"".join(rec.build(v) for v in recs_vals) + (bytes(variant["tail"]) if variant.get("tail_zero") else bytes(rng.randrange(256) for _ in range(variant["tail"])))
     return data, name, hdr, recs_vals
 
 
@@ -309,6 +309,11 @@ def variants(ctx, fmt):
         lst.append(dict(base, n=2, count=2, epoch=2, start=(1992, 252, 1000)))
         lst.append(dict(base, n=2, count=2, epoch=2, start=(1994, 319, 86399000)))
         lst.append(dict(base, n=2, count=2, epoch=3, start=(1994, 320, 0)))
+    # a header count SMALLER than the records that are there together with a trailing partial record of ZEROS (a file padded to
+    # the block size of its medium): every complete record is read, the padding is ignored, the count only warns
+    lst.append(dict(base, n=6, count=4, tail=100, tail_zero=True))
+    lst.append(dict(base, n=5, count=2, tail=filegen.FMT[fmt]["width"] * 3, tail_zero=True, archive=True))
+    lst.append(dict(base, n=3, count=7, tail=64, tail_zero=True))
     # PLATFORM SWEEP: one file per spacecraft either family can report, on a date of that spacecraft's life (TIROS-N shares id 1
     # with NOAA-11 and is told apart by the date: files of 1979 and of the last day of 1981 carry id 1, too); the header field
     # reads back as written whatever the reader derives from it
